@@ -338,15 +338,36 @@ def bounded(rep, tier, seed):
             d = repr(ex)[:80]
         if not ok:
             fails.append({"a": iso(a, oa), "b": iso(b, ob), "law": "t1 - t2 is the difference of the instants, whatever offsets they are written with", "observed": repr(d)})
+    # sums with fractional seconds up to the very end of the range: (t + d) - d == t and (t + d) - t == d wherever t + d is in range
+    last = datetime.datetime(9999, 12, 31, 23, 59, 59, 999999, tzinfo=datetime.timezone.utc)
+    for back_us, add_us in ((1500000, 1000000), (999999, 999999), (2000000, 1500000), (1, 1), (500000, 250000), (86400000000, 86399999999)):
+        n += 1
+        t0 = last - datetime.timedelta(microseconds=back_us)
+        try:
+            t, d = T(t0), ct.DurationType(datetime.timedelta(microseconds=add_us))
+            sm = bf["_+_"](t, d)
+            ok = type(sm) is ct.TimestampType and bool(bf["_==_"](bf["_-_"](sm, d), t)) and bool(bf["_==_"](bf["_-_"](sm, t), d))
+            obs = repr(sm)
+        except Exception as ex:
+            ok, obs = False, repr(ex)[:100]
+        if not ok:
+            fails.append({"t": str(t0), "d_us": add_us, "law": "(t + d) - d == t and (t + d) - t == d for an in-range sum", "observed": obs})
     # accessors with IANA zone names, historical offsets with a seconds part included (reference: the standard library's zoneinfo)
     try:
         import zoneinfo
         zones = [("Africa/Monrovia", 1970), ("Europe/Amsterdam", 1930), ("America/New_York", 1880), ("Asia/Kolkata", 2020), ("Australia/Lord_Howe", 2021),
                  ("Pacific/Apia", 2011), ("Europe/London", 2024), ("UTC", 2000)]
-        for zn, year in zones:
+        # instants within a few hours of daylight-saving transitions (both directions, both hemispheres)
+        near = [("America/New_York", datetime.datetime(2021, 3, 14, h, 30, tzinfo=datetime.timezone.utc)) for h in range(3, 10)] + \
+               [("America/New_York", datetime.datetime(2021, 11, 7, h, 30, tzinfo=datetime.timezone.utc)) for h in range(3, 9)] + \
+               [("Europe/London", datetime.datetime(2021, 3, 28, h, 30, tzinfo=datetime.timezone.utc)) for h in range(0, 4)] + \
+               [("Europe/London", datetime.datetime(2021, 10, 31, h, 30, tzinfo=datetime.timezone.utc)) for h in range(0, 4)] + \
+               [("Australia/Sydney", datetime.datetime(2021, 4, 3, h, 30, tzinfo=datetime.timezone.utc)) for h in range(13, 18)]
+        for zn, year in zones + [(zn_, inst_) for zn_, inst_ in near]:
             z = zoneinfo.ZoneInfo(zn)
-            for _ in range(40 if tier == "thorough" else 6):
-                inst = datetime.datetime(year, rng.randrange(1, 13), rng.randrange(1, 28), rng.randrange(24), rng.randrange(60), rng.randrange(60), tzinfo=datetime.timezone.utc)
+            fixed = year if isinstance(year, datetime.datetime) else None
+            for _ in range(1 if fixed is not None else (40 if tier == "thorough" else 6)):
+                inst = fixed if fixed is not None else datetime.datetime(year, rng.randrange(1, 13), rng.randrange(1, 28), rng.randrange(24), rng.randrange(60), rng.randrange(60), tzinfo=datetime.timezone.utc)
                 loc = inst.astimezone(z)
                 t = T(inst)
                 want = {"getFullYear": loc.year, "getMonth": loc.month - 1, "getDate": loc.day, "getDayOfMonth": loc.day - 1, "getDayOfYear": loc.timetuple().tm_yday - 1,
